@@ -314,8 +314,11 @@ func ruleFetchRawReturnsWhole(w *World, r *Report, rule string) {
 		if isFailureReturn(rt) {
 			continue
 		}
-		if stripChangeType(rt.Results[0]) != ssa.Value(mk) {
-			bad = newExprCtx(w).expr(rt.Results[0])
+		// the returned slice is the one allocated (directly, or through a local variable that only ever holds it)
+		for _, l := range leavesOf(rt.Results[0]) {
+			if stripChangeType(l) != ssa.Value(mk) {
+				bad = newExprCtx(w).expr(rt.Results[0])
+			}
 		}
 	}
 	r.Check(ok && bad == "", rule, "fetchRawPoints:whole-result", posOf(w, f), "returns exactly (until-from)/step slots", "fetchRawPoints does not return the whole slice of (until-from)/step slots ("+bad+"): the value count of a written archive then depends on stored content")
